@@ -33,12 +33,12 @@ def build_racedrive(ctx):
     for p in (plain, race):
         if os.path.exists(p):
             os.remove(p)
-    rc, o = C.sh(["go", "build", "-tags", "verif", "-o", plain, "./cmd/racedrive"], cwd=hdir, env=C.GOENV, timeout=600)
+    rc, o = C.sh(["go", "build"] + C.go_mod_args() + ["-tags", "verif", "-o", plain, "./cmd/racedrive"], cwd=hdir, env=C.GOENV, timeout=600)
     ctx.log.append({"step": "go build -tags verif racedrive", "rc": rc, "out": o[-1500:]})
     if rc != 0:
         return None, None, o
     env = dict(C.GOENV, CGO_ENABLED="1")
-    rc, o = C.sh(["go", "build", "-race", "-tags", "verif", "-o", race, "./cmd/racedrive"], cwd=hdir, env=env, timeout=900)
+    rc, o = C.sh(["go", "build"] + C.go_mod_args() + ["-race", "-tags", "verif", "-o", race, "./cmd/racedrive"], cwd=hdir, env=env, timeout=900)
     ctx.log.append({"step": "CGO_ENABLED=1 go build -race -tags verif racedrive", "rc": rc, "out": o[-1500:]})
     if rc != 0:
         return plain, None, "race detector unavailable in this environment: " + o[-600:]
